@@ -53,9 +53,19 @@ func (i *interpreter) nondet(fr *frame, name string, lo, hi int64, k types.Basic
 	var rng *sym.Term
 	// the solver-level name carries the range: the same harness name may be declared with
 	// different ranges on different paths (never twice on one path)
-	smtName := fmt.Sprintf("%s@%d:%d", name, lo, hi)
+	// SMT-LIB quoted symbols may not contain '|' or '\\' (and we keep them printable)
+	safe := strings.Map(func(r rune) rune {
+		if r == '|' || r == '\\' || r < ' ' || r > '~' {
+			return -1
+		}
+		return r
+	}, name)
+	if safe != name {
+		safe = fmt.Sprintf("%s#%x", safe, name)
+	}
+	smtName := fmt.Sprintf("%s@%d:%d", safe, lo, hi)
 	if k == types.Bool {
-		smtName = name
+		smtName = safe
 		t = c.VarBool(smtName)
 		rng = c.True
 	} else if i.math {
